@@ -8,35 +8,62 @@ namespace Mel.VM
 open Mel
 
 /-- every table weight is at least 1 (generated table) -/
-theorem C11_opWeight_pos (op : Op) : 1 ≤ opWeight op := by
-  sorry
+theorem C11_opWeight_pos (op : Op) : 1 ≤ opWeight op := opWeight_pos op
 
 /-- the value the code computes is the mathematical weight saturated at `u128::MAX` -/
 theorem C11_weight_saturates (ops : List Op) : weight ops = min (weightU ops) U128_MAX := by
-  sorry
+  unfold weight weightU
+  exact weightSF_eq _ _
 
 /-- (i) the number of executed instructions never exceeds the (un-saturated) weight,
     whatever the fuel, the oracles and the initial heap. -/
 theorem C11_steps_le_weight (o : Oracles) (ops : List Op) (heap : Heap) (fuel : Nat) :
     (runFuel o ops fuel (initExec heap) 0).2 ≤ weightU ops := by
-  sorry
+  have h := runFuel_steps_le o ops fuel (initExec heap) 0
+  rw [phi_init] at h
+  omega
 
 /-- … hence execution terminates: the fuel `weightU ops + 1` used by `run` is never
     exhausted — any larger fuel gives the same result and step count. -/
 theorem C11_fuel_sufficient (o : Oracles) (ops : List Op) (heap : Heap) (fuel : Nat)
     (h : weightU ops + 1 ≤ fuel) :
     runFuel o ops fuel (initExec heap) 0 = runFuel o ops (weightU ops + 1) (initExec heap) 0 := by
-  sorry
+  apply runFuel_fuel_indep <;> rw [phi_init] <;> omega
 
 /-- with a weight below the u128 cap, steps ≤ the weight the spender is charged for -/
 theorem C11_steps_le_charged (o : Oracles) (ops : List Op) (heap : Heap)
     (h : weight ops < U128_MAX) : runSteps o ops heap ≤ weight ops := by
-  sorry
+  have h1 := C11_steps_le_weight o ops heap (weightU ops + 1)
+  have h2 := C11_weight_saturates ops
+  unfold runSteps
+  omega
 
 /-- (ii, negation) weighing is exponential in the number of stacked `Loop`s (finding F2):
-    `n` consecutive `Loop 1 1000` instructions cost at least `2^n` calls. -/
-theorem C11_weigh_exponential (n : Nat) :
+    `n` consecutive `Loop 1 1000` instructions cost at least `2^n` calls.
+    The hypothesis `n ≤ 1000` is necessary: the body slice of each `Loop 1 1000` covers at most
+    1000 instructions, so from `n = 1002` on the count grows more slowly than `2^n`
+    (see `weigh_exponential_fails`). -/
+theorem C11_weigh_exponential (n : Nat) (hn : n ≤ 1000) :
     2 ^ n ≤ weighWork (List.replicate n (Op.loop 1 1000)) + 1 := by
-  sorry
+  unfold weighWork
+  rw [weighWorkF_replicate 1 _ n (by simp) (by omega)]
+  exact Nat.le_refl _
+
+/-- the un-restricted statement is false: at `n = 1002` the count is `3 * 2^1000 - 1 < 2^1002 - 1`
+    (stated with `k = 1000` symbolic to keep the numerals out of the kernel's way) -/
+theorem weigh_exponential_fails (k : Nat) (hk : k = 1000) :
+    ¬ 2 ^ (k + 2) ≤ weighWork (List.replicate (k + 2) (Op.loop 1 1000)) + 1 := by
+  unfold weighWork
+  rw [weighWorkF_replicate_clipped 1 _ k hk (by simp), Nat.pow_succ, Nat.pow_succ]
+  have pos : 0 < 2 ^ k := Nat.pow_pos (by omega)
+  omega
 
 end Mel.VM
+
+#print axioms Mel.VM.C11_opWeight_pos
+#print axioms Mel.VM.C11_weight_saturates
+#print axioms Mel.VM.C11_steps_le_weight
+#print axioms Mel.VM.C11_fuel_sufficient
+#print axioms Mel.VM.C11_steps_le_charged
+#print axioms Mel.VM.C11_weigh_exponential
+#print axioms Mel.VM.weigh_exponential_fails
